@@ -176,12 +176,12 @@ where
     /// Each call writes a complete single-object encoded message (header + data),
     /// making each message independently decodable.
     pub fn write_value<W: Write>(&self, data: T, writer: &mut W) -> AvroResult<usize> {
-        writer
-            .write_all(&self.header)
-            .map_err(Details::WriteBytes)?;
         let value: Value = data.into();
-        let bytes = write_value_ref_owned_resolved(&self.resolved, &value, writer)?;
-        Ok(bytes + self.header.len())
+        // Encode into a buffer first so nothing is written for a value that fails validation
+        let mut buffer = self.header.clone();
+        write_value_ref_owned_resolved(&self.resolved, &value, &mut buffer)?;
+        writer.write_all(&buffer).map_err(Details::WriteBytes)?;
+        Ok(buffer.len())
     }
 }
 
